@@ -48,7 +48,8 @@ def replay_part1(case):
 # ------------------------------------------------------------------ part 2
 
 def specs(tier):
-    out = [(0.0, 1.0), (1.0, 0.5), (2.5, 0.1), (9.0, 0.5), (8.0, 1.0)]     # the last two cross a digit boundary (9.5 -> 10.0)
+    out = [(0.0, 1.0), (1.0, 0.5), (2.5, 0.1), (9.0, 0.5), (8.0, 1.0),     # the last two cross a digit boundary (9.5 -> 10.0)
+           (0.5, 1.0), (2.25, 0.5)]                                        # start time with more decimals than dt
     if tier == "thorough":
         out += [(0.0, 0.1), (1.0, 1.0), (0.0, 0.25), (2.5, 0.5)]
     return out
